@@ -15,7 +15,7 @@ ASSUMPTIONS = [
     "run truncated when every computation has completed the stated number of rounds",
 ]
 BOUNDS = {
-    "quick": "probe: pair (3 rounds, subset and return/post per round), chain-3 (2 rounds), triangle and star-3 (degree 3; 1 complete round plus the messages of the next) with a subset fixed per computation; star-3 until the hub has completed 2 rounds (leaves 1) with everybody addressing all neighbours; DSA-tuto on a pair (3 rounds); all schedules and start orders",
+    "quick": "probe: pair (3 rounds, subset and return/post per round), chain-3 (2 rounds), triangle and star-3 (degree 3; 1 complete round plus the messages of the next) with a subset fixed per computation; star-3 until the hub has completed 2 rounds (leaves 1) with everybody addressing all neighbours; a relay algorithm re-posting received message objects (chain-3, 3 rounds; triangle, 2 rounds); DSA-tuto on a pair (3 rounds); all schedules and start orders",
     "thorough": "probe: chain-3 per-round subsets, chain-3 with 3 rounds, triangle/star-3 with 2 rounds; DSA-tuto chain-3; Max-Sum pair (4 rounds)",
 }
 OUTSIDE = "more than 4 computations, more than 3 rounds, NCBB (needs the pseudo-tree specific messages)"
@@ -44,6 +44,10 @@ def jobs(tier):
          "via": "return", "free": []},
         {"name": "probe-triangle-r1-mixed", "kind": "probe", "graph": "triangle", "rounds": 1, "per_round": False, "via": "mixed",
          "free": []},
+        # a relay algorithm: fresh tokens at start, then every computation passes on (the same message objects) what it
+        # received: a message object is posted again in a later round
+        {"name": "relay-chain3-r3", "kind": "relay", "graph": "chain3", "rounds": 3},
+        {"name": "relay-triangle-r2", "kind": "relay", "graph": "triangle", "rounds": 2},
         {"name": "dsatuto-pair-r3", "kind": "algo", "algo": "dsatuto", "spec": spec("pair", "min"), "rounds": 3},
     ]
     if tier == "thorough":
@@ -122,7 +126,57 @@ def _make_probe(eng, name, neighbors, p, log):
 _make_probe.msg = None
 
 
+def run_relay(eng, p):
+    begin(eng, numpy_facade=False)
+    from pydcop.infrastructure.computations import (SynchronousComputationMixin, DcopComputation, register, message_type)
+    TokMsg = _make_probe.msg or message_type("probe", ["tag"])
+    _make_probe.msg = TokMsg
+    graph = GRAPHS[p["graph"]]
+    calls = {}
+
+    def make(name, neighbors):
+        class Relay(SynchronousComputationMixin, DcopComputation):
+            def __init__(self):
+                node = types.SimpleNamespace(neighbors=list(neighbors), name=name)
+                super().__init__(name, types.SimpleNamespace(node=node, algo=None))
+
+            @register("probe")
+            def _on_probe(self, s, m, t):
+                pass
+
+            def on_start(self):
+                for n in neighbors:
+                    self.post_msg(n, TokMsg((name, n)))
+
+            def on_new_cycle(self, messages, cycle_id):
+                calls.setdefault(name, []).append((cycle_id, sorted(messages)))
+                # pass the token received from neighbour k+1 on to neighbour k (the very same message object)
+                out = []
+                for k, n in enumerate(neighbors):
+                    src = neighbors[(k + 1) % len(neighbors)]
+                    if src in messages:
+                        out.append((n, messages[src][0]))
+                return out
+        return Relay()
+    bench = Bench(eng)
+    comps = {name: bench.add(make(name, neigh)) for name, neigh in graph.items()}
+    R = p["rounds"]
+    try:
+        status = bench.run(max_steps=400, stop=lambda: all(c.current_cycle >= R for c in comps.values()))
+    except Exception as e:
+        import traceback
+        eng.notes["outcome"] = {"exc": str(e)}
+        eng.fail("exception %s: %s" % (type(e).__name__, e), detail=traceback.format_exc(limit=-4))
+        return
+    eng.notes["outcome"] = {"status": status, "calls": calls}
+    eng.prove(status == "stopped", "relay computations did not all complete %d rounds (stuck: %s)" % (R, status), detail=str(calls))
+    ok = all([c for c, _ in cs] == list(range(len(cs))) and all(m == sorted(graph[n]) for _, m in cs) for n, cs in calls.items())
+    eng.prove(ok, "a round was not handed exactly one message per neighbour, with consecutive cycle ids", detail=str(calls))
+
+
 def run(eng, p):
+    if p["kind"] == "relay":
+        return run_relay(eng, p)
     if p["kind"] == "probe":
         return run_probe(eng, p)
     return run_algo(eng, p)
